@@ -393,6 +393,24 @@ func main() {
 	strict := fs.Bool("strict", false, "no masks, full battery (known-finding probes)")
 	_ = fs.Parse(os.Args[2:])
 	sh.Strict = *strict
+	if mode == "show" {
+		// print the decoded request of the last -len entries of a log (msgpack-encoded command types)
+		l := readLog(*logPath)
+		for i, e := range l {
+			if i+*length < len(l) {
+				continue
+			}
+			var m any
+			raw, _ := base64.StdEncoding.DecodeString(e.Data)
+			if err := structs.Decode(raw[1:], &m); err != nil {
+				fmt.Printf("entry %d idx %d %s (not msgpack)\n", i+1, e.Idx, e.Desc)
+				continue
+			}
+			b, _ := json.Marshal(sh.JSONable(m))
+			fmt.Printf("entry %d idx %d %s %s\n", i+1, e.Idx, e.Desc, b)
+		}
+		return
+	}
 	if mode == "explain" {
 		l := readLog(*logPath)
 		h := sh.New()
